@@ -228,6 +228,7 @@ class Sim(object):
     def __init__(self, role, actions, max_pdu=65536, budget=20000, store_in_file=frozenset(),
                  get_file_cb=None, accepted_contexts=None, write_fault=None, stall_write=None, stall_seconds=11.5):
         self.role = role
+        self.stopped_at = None
         self.stall_write = stall_write        # index of the write during which the peer pauses reading
         self.stall_seconds = stall_seconds
         self.write_fault = write_fault    # index of the first write on the transport that fails (None: never)
@@ -352,6 +353,8 @@ class Sim(object):
                 res = self.provider.stop()
                 self.stop_results.append((self.state(), res))
                 if res:
+                    # stop() said the provider will terminate: nothing more may be asked of the loop
+                    self.stopped_at = self.next
                     return
                 continue
             raise ValueError('unknown action %r' % (k,))
